@@ -9,8 +9,11 @@ import tempfile
 import time
 
 ROOT = os.path.dirname(os.path.dirname(os.path.abspath(__file__)))
-EVIDENCE_DIR = os.path.join(ROOT, 'evidence')
-REPLAY_DIR = os.path.join(ROOT, 'replays')
+# VERIF_OUT_DIR redirects evidence and replay files (used when checks are run against a mutated scratch tree, so that
+# the committed evidence always comes from /repo itself)
+_OUT = os.environ.get('VERIF_OUT_DIR') or ROOT
+EVIDENCE_DIR = os.path.join(_OUT, 'evidence')
+REPLAY_DIR = os.path.join(_OUT, 'replays')
 FINDINGS_FILE = os.path.join(ROOT, 'known_findings.json')
 
 EXIT_OK, EXIT_VIOLATION, EXIT_HARNESS = 0, 1, 3
